@@ -1,8 +1,10 @@
 package props
 
 import (
+	"fmt"
 	"go/token"
 	"strings"
+	"wpverif/internal/prov"
 
 	"golang.org/x/tools/go/ssa"
 
@@ -133,6 +135,7 @@ func checkC10(e *Env) {
 	scope := parserScope(e, parserEntries)
 	e.R.Counts["scope_functions"] = len(scope)
 	runUntrusted(e, scope, func(f *ssa.Function) bool { return !inDeterministic(f) }, nil)
+	searchIndexGuarded(e, scope)
 	e.R.Floor("U1", 2)
 	e.R.Floor("U3", 5)
 	e.R.Floor("U4", 5)
@@ -140,4 +143,50 @@ func checkC10(e *Env) {
 	panicReachability(e, scope)
 	recursionInScope(e, scope)
 	_ = load.FuncName
+}
+
+// searchIndexGuarded (rule SEARCHIDX): the result of sort.Search / SearchInts /
+// SearchStrings is an insertion point in [0, len]; used as an index it must be
+// tested "< len(slice)" first, otherwise a key larger than every element
+// (a status code above the last table entry) panics.
+func searchIndexGuarded(e *Env, scope map[*ssa.Function]bool) {
+	for _, fn := range e.P.Funcs {
+		if !e.P.IsLibrary(fn) {
+			continue
+		}
+		n := 0
+		for _, b := range fn.Blocks {
+			for _, in := range b.Instrs {
+				var idx, base ssa.Value
+				switch x := in.(type) {
+				case *ssa.IndexAddr:
+					idx, base = x.Index, x.X
+				case *ssa.Index:
+					idx, base = x.Index, x.X
+				default:
+					continue
+				}
+				c, ok := idx.(*ssa.Call)
+				if !ok || !strings.HasPrefix(prov.CalleeName(&c.Call), "sort.Search") {
+					continue
+				}
+				n++
+				key := fmt.Sprintf("%s:index-by-%s#%d", load.FuncName(fn), prov.CalleeName(&c.Call), n)
+				tBase := prov.Of(base)
+				if dominatedBy(b, func(f gate.Fact) bool {
+					if f.Kind != gate.FCmp {
+						return false
+					}
+					if f.Op == token.LSS && f.X == idx && prov.Of(f.Y) == "len("+tBase+")" {
+						return true
+					}
+					return f.Op == token.GTR && f.Y == idx && prov.Of(f.X) == "len("+tBase+")"
+				}) {
+					e.R.OK("SEARCHIDX", key, e.P.InstrPos(in), "the insertion point is tested to be below len before it is used as an index")
+				} else {
+					e.R.Fail("SEARCHIDX", key, e.P.InstrPos(in), "the result of "+prov.CalleeName(&c.Call)+" indexes "+short(tBase)+" without a dominating '< len' test: a key above the last element panics")
+				}
+			}
+		}
+	}
 }
